@@ -297,10 +297,21 @@ def r4_signature_removal_scoped(ctx):
             node = next((n for n in g.nodes if c in n.calls()), None)
             src = ' '.join(unparse(e) for _, e in rd.origins(node, c.args[0])
                            ) if node is not None and c.args else ''
-            if 'self.app_label' in src or 'simulation.app_label' in src or \
-                    'simulation.get_app_sig()' in src:
-                ctx.ok(f, 'removes the purged app\'s own signature entry', c)
+            own = 'self.app_label' in src or 'simulation.app_label' in src \
+                or 'simulation.get_app_sig()' in src
+            emptied = node is not None and any(
+                t.kind in ('test', 'operand') and 'is_empty' in unparse(t.ast)
+                and g.guarded_by(node, t, 'T') for t in g.nodes)
+            if own and emptied:
+                ctx.ok(f, 'removes the purged app\'s own, emptied signature '
+                       'entry', c)
                 purge_removes = True
+            elif own:
+                ctx.finding(f, c, '%s removes the app\'s signature entry '
+                            'without checking that it is empty: models that '
+                            'were skipped (routed to another database) would '
+                            'lose their signatures' % f.qualname,
+                            key='app-sig-removed-unconditionally')
             else:
                 ctx.finding(f, c, '%s removes the app signature %s, which is '
                             'not derived from its own app label' % (
